@@ -9,6 +9,7 @@ behind a port forwarding inside a mesh).  Impl -> spec: TLC judges every run rec
 SelfDialOK): fully meshed by the deadline, stays meshed, nobody ever lists itself, own addresses adopted, not dialled."""
 import os
 import vplib as V
+from checks import cloudcommon
 from checks import noderuns
 
 PID = "C14"
@@ -61,6 +62,8 @@ def run(tier, out):
                 "slowest full mesh after %d ticks" % (len(cfgs), s["runs"], worst),
         "self_test": st,
     }
+    cloudcommon.design(PID, tier, out, cov)
+    cloudcommon.part(PID, tier, out, cov)
     return out.finish("model_checking", cov, assumptions=[
         "default settings (announcement interval 90 s); dial instructions are configured peers (retried until they answer)",
         "NAT = the mock socket's address filter (passes a sender only after the natted node has sent to it within 300 s)"])
